@@ -728,11 +728,19 @@ def search_failing(ctx, broken):
 
 
 MANIFEST = {
-    'level_text': 'Proof over a Coq model of get_serialization_data / constructor handling of all 14 template classes and '
-                  'of the PulseStorage store/load protocol (json documents as trees, unbounded nesting), tied to /repo by an '
-                  'exact correspondence check on real template forests over the dict, directory and zip backends.',
-    'level_note': 'Partial w.r.t. the text level: json.dumps/loads, sympy printing/parsing and float repr are oracles. '
-                  'Behavioural equality (sampled program, windows) of loaded vs original is observed on the implementation.',
-    'technique': 'Coq proof (structural induction on template trees) + correspondence check',
+    'level_text': 'Proof over a Coq model of get_serialization_data / constructor argument handling of all 14 template '
+                  'classes and of the PulseStorage store/load protocol (json documents as trees, unbounded nesting): decoder '
+                  'inverts encoder for every class (C10_roundtrip_node), a fresh storage over a backend holding the named '
+                  'nodes\' documents loads the template back and terminates (C10_storage_partial), loaded identifiers are '
+                  'served from the cache afterwards (C10_sharing_partial), stored documents never embed a named template '
+                  '(C10_documents); two refutation theorems for the known findings. Tied to /repo by an exact '
+                  'correspondence check on real template forests over the dict, directory and zip backends.',
+    'level_note': 'Partial: (1) text level (json.dumps/loads, sympy printing/parsing, float repr) is an oracle; (2) that '
+                  '`store` puts every named node\'s document into the backend is tested by the correspondence, not proved '
+                  '(C10_storage_statement open); (3) in-tree identity sharing is observed on the implementation '
+                  '(C10_sharing_statement open); (4) equal behaviour (sampled program, windows) of loaded vs original is '
+                  'observed for 2 parameter assignments, not derived from a template semantics. Guards: string dict keys '
+                  '(finding int_channel_key), one identifier per object (finding dup_identifier_in_transaction).',
+    'technique': 'Coq proof (structural induction on nested template trees, cache invariant for load) + correspondence check',
     'design_ref': 'DESIGN.md §5 C10',
 }
